@@ -82,6 +82,13 @@ T = {
             'around the 253/254 and 4-byte padding boundaries up to 65540 bytes, multi-byte UTF-8, vectors of base and object types, polymorphic and nested objects; '
             'bytes equal R5, parse returns the same value and consumes all bytes; BlockId/BlockIdExt conversions, equality and hashing.',
             'R5 id rule validated on 4 well-known ids and pinned bytes; opaque payloads avoid registered ids'),
+    'C15': ('reference-model monitor: independent block.tlb message encoder/decoder (R3) beside MessageAny.serialize/deserialize + metamorphic check over all valid '
+            'Either placements, with M-INV on every cell built',
+            'exploration', '4/C15',
+            'Headers of the 3 kinds (addresses none/extern/std +- anycast, amounts at var-length boundaries, extra currencies), every state-init subset, bodies swept '
+            'across the bit and reference budgets of each layout incl. headers tuned to leave -1..2 bits; serialize never raises, cell decodes under R3 to the same '
+            'message, the parser returns it from its own cell and from every valid placement; stand-alone StateInit, currencies, wallet / NFT data, HashUpdate.',
+            'R3 written from the bundled block.tlb; addr_var not generated'),
     'C17': ('reference-model monitor (independent block.tlb VmStack encoder) + M-SNAP on caller values + double-serialisation metamorphic check',
             'exploration', '4/C17',
             'Stacks over all value kinds, integer boundaries, tuples to length 255 / nesting 6, all ten continuation kinds with control data; library '
